@@ -168,6 +168,23 @@ pub fn bfs<W: World>(prog: &W::Prog, cfg: &Cfg, opts: &Opts, ids: (u32, u32), ma
 /// action of the initial state (used to split one big program over several workers; each split
 /// keeps its own visited set).
 pub fn bfs_from<W: World>(prog: &W::Prog, cfg: &Cfg, opts: &Opts, ids: (u32, u32), first: Option<u16>, marker: &Marker, stats: &mut Stats) {
+    bfs_hook::<W, _>(prog, cfg, opts, ids, first, marker, stats, &mut |_, _, _| {})
+}
+
+/// `bfs_from` with a callback invoked after every explored transition with (history including
+/// the last action, choice indices, stats): used by fault enumeration (E3) to branch off every
+/// explored `stabilise`.
+#[allow(clippy::too_many_arguments)]
+pub fn bfs_hook<W: World, F: FnMut(&[W::Action], &[u16], &mut Stats)>(
+    prog: &W::Prog,
+    cfg: &Cfg,
+    opts: &Opts,
+    ids: (u32, u32),
+    first: Option<u16>,
+    marker: &Marker,
+    stats: &mut Stats,
+    hook: &mut F,
+) {
     stats.programs += 1;
     let mut seen: HashMap<(u64, u64), u32> = HashMap::new(); // digest -> index into reps (if congruence checking)
     let mut reps: Vec<Vec<W::Action>> = vec![];
@@ -236,6 +253,13 @@ pub fn bfs_from<W: World>(prog: &W::Prog, cfg: &Cfg, opts: &Opts, ids: (u32, u32
                     }
                 }
                 stats.observation_traces.insert(w2.observation_hash());
+                {
+                    let mut h = node.hist.clone();
+                    h.push(a.clone());
+                    let mut c = node.choices.clone();
+                    c.push(i as u16);
+                    hook(&h, &c, stats);
+                }
                 if w2.dead() {
                     w2.teardown();
                     continue;
